@@ -246,7 +246,7 @@ def run_unit(unit, tier):
                     if found:
                         # name of the stand-in whose precondition this is (nearest `fn` above in the template text)
                         sname = None
-                        for q in range(ln - 1, max(ln - 40, 0), -1):
+                        for q in range(ln, max(ln - 40, 0), -1):
                             mm = re.search(r'\bfn\s+([A-Za-z_][A-Za-z0-9_]*)\s*[<(]', gl[q - 1]) if q >= 1 else None
                             if mm:
                                 sname = mm.group(1)
